@@ -59,6 +59,12 @@ def plan(tier, seed):
             cases.append(dict(lane='dist', fam=fam, D=D, N=int(pick([1, 2, D, D + 1, 3 * D, 30])), lead=pick([[], [2], [2, 2]]) if fam != 'bingham' else [],
                               cls=CLASSES[r % len(CLASSES)], saliency=pick(['none', 'pos', 'zeros', 'onehot']), rs=[seed, 10, i]))
             i += 1
+    # nearly collinear classes for the families with a concentration bound (two or more parameters reach the bound together)
+    for fam in ('bingham', 'watson', 'vmf'):
+        for r in range(S(tier, 6, 40)):
+            cases.append(dict(lane='dist', fam=fam, D=int(pick([3, 4, 4])) if fam == 'bingham' else int(rng.integers(2, 7)), N=int(pick([8, 20, 40])), lead=[] if fam == 'bingham' else pick([[], [2]]),
+                              cls='collinear', saliency=pick(['none', 'pos']), max_concentration=float(pick([50, 500, 500, 1000])), rs=[seed, 12, i]))
+            i += 1
     if tier == 'thorough':
         cases.append(dict(lane='suite', rs=[seed, 99, 0]))
     return cases
@@ -139,6 +145,13 @@ def run_dist(case, R):
     if real and case['rs'][-1] % 4 == 0 and case['cls'] not in ('ragged', 'scaled_up'):     # (1e150-fold gains on top of the offset would leave the range in which squares are finite)
         y = y + oracles_unit(rng.standard_normal((1,) * len(lead) + (1, D))) * float(rng.choice([1e4, 1e5, 1e6]))     # far from the origin
     cls = case['cls']
+    if cls == 'collinear':
+        a = (rng.standard_normal((*lead, 1, D)) if real else gen.cnormal(rng, (*lead, 1, D)))
+        c = (rng.standard_normal((*lead, N, 1)) if real else gen.cnormal(rng, (*lead, N, 1)))
+        if real:
+            c = np.abs(c) + 0.1           # one direction (not an axis) for the vMF
+        y = c * a + 10 ** rng.uniform(-6, -2) * y
+        cls = 'gauss'
     if cls in ('short', 'short1'):
         cls = 'gauss'
     if cls in ('zerobin', 'zeroclass'):
@@ -168,8 +181,9 @@ def run_dist(case, R):
             opts = dict(eigenvalue_floor=fl, covariance_norm=nm)
             m = d.ComplexAngularCentralGaussianTrainer().fit(y, eigenvalue_floor=fl, covariance_norm=nm, iterations=int(rng.integers(1, 6)))
         else:
-            opts = dict(max_concentration=500)
-            m = ComplexBinghamTrainer(max_concentration=500).fit(y, saliency=sal)
+            mc = case.get('max_concentration', 500)
+            opts = dict(max_concentration=mc)
+            m = ComplexBinghamTrainer(max_concentration=mc).fit(y, saliency=sal)
     except Exception as e:
         if not instr.is_library_exception(e):
             raise
